@@ -185,35 +185,20 @@ func (t *Tree) String() string {
 }
 
 func GetNode(children []*Node, path string) (*Node, bool) {
-	if len(children) == 0 {
-		return nil, false
-	}
-
 	pathSplit := strings.SplitN(path, "/", 2)
 	searchName := pathSplit[0]
 
-	left := 0
-	right := len(children)
-	for {
-		middle := (left + right) / 2
-		node := children[middle]
-		if node.Name == searchName {
-			if len(node.Children) == 0 {
-				return node, true
-			}
-			if len(pathSplit) > 1 {
-				return GetNode(node.Children, pathSplit[1])
-			} else {
-				return node, true
-			}
-		} else if node.Name < searchName {
-			left = middle + 1
-		} else {
-			right = middle
+	for _, node := range children {
+		if node.Name != searchName {
+			continue
 		}
-
-		if right-left < 1 {
-			break
+		if len(pathSplit) == 1 {
+			return node, true
+		}
+		if len(node.Children) > 0 {
+			if gotNode, isFound := GetNode(node.Children, pathSplit[1]); isFound {
+				return gotNode, true
+			}
 		}
 	}
 
